@@ -5,6 +5,7 @@ import McpModel.ClientStream.BridgeBody
 The monitor reads the log through indices (`s.items[i]?`); the body lemma of part 1 speaks about the
 slice of completely received items.  For the indices `range' f k` of a slice the two views agree.
 -/
+set_option linter.unusedSimpArgs false
 namespace ClientStream
 open Generated.ClientStream
 
@@ -14,7 +15,7 @@ theorem map_get_range' (items : List (LItem L)) (f k : Nat) (hk : f + k ≤ item
     (List.range' f k).map (fun i => items[i]?) = ((items.drop f).take k).map some := by
   apply List.ext_getElem?
   intro n
-  simp only [List.getElem?_map, List.getElem?_range', List.getElem?_take, List.getElem?_drop]
+  simp only [List.getElem?_map, List.getElem?_take, List.getElem?_drop]
   by_cases hn : n < k
   · have : f + n < items.length := by omega
     simp [hn, this, Option.filter]
